@@ -29,6 +29,7 @@ import FastPasta.Props.C10
 import FastPasta.Props.C11
 import FastPasta.Props.C01
 import FastPasta.Props.C07
+import FastPasta.Proofs.StateSrcTie
 namespace FastPasta
 namespace C02
 
@@ -1671,6 +1672,29 @@ example : wordId lowBcTdh = wordId C01.Ex.tdhNoData ∧ tdhNoData lowBcTdh = tdh
 /-- `page1` starts with IHW + the continuation TDH of the open packet -/
 example : page1.words = [ihw] ++ tdhCont :: [data, data, tdtDone, tdhOpen, tdtDone] ∧ tdhContinuation tdhCont = 1 ∧ tdhContinuation tdh = 0 := by decide
 end ExDepth
+
+
+/-! ### tie by translation: the state-dependent rule checks are the source's (`Spec/StateSrcGen.lean`) -/
+/-- the code lists the model emits for a TDH after an IHW (E42/E444/E445/E44), for a continuation TDH (E41/E441/E442/E443), for a
+    DDW0 (E110/E111) and for an initial IHW (E12) are exactly the `[E..]` codes in the messages of the source's
+    `TdhValidator::check_tdh_no_continuation`, `check_continuation`, `ItsRdhValidator::check_at_ddw0`, `check_at_initial_ihw`
+    on the same word and header; E440 is `check_after_tdt_packet_done_true` on the source's TDH buffer -/
+theorem stateful_checks_src (s : CdpSt) (w : Bytes) (c : SrcRdh.RdhCru) (hc : SrcTie.toModel c = s.rdh) :
+    tdhNoContinuationChecks s w =
+      (SrcState.TdhValidator.check_tdh_no_continuation (SrcTie.tdhOf w) c).errStr.codes.map (fun k => mkErr s (SrcTie.codeStr k) w) ∧
+    tdhContinuationChecks s w =
+      (SrcState.TdhValidator.check_continuation (SrcTie.tdhOf w) (s.prevTdh.map SrcTie.tdhOf)).errStr.codes.map (fun k => mkErr s (SrcTie.codeStr k) w) ∧
+    ((if s.rdh.stopBit != 1 then [mkErr s "E110" w] else []) ++ (if s.rdh.pagesCounter == 0 then [mkErr s "E111" w] else [])) =
+      (SrcState.ItsRdhValidator.check_at_ddw0 (SrcState.ItsRdhValidator.new c)).errStr.codes.map (fun k => mkErr s (SrcTie.codeStr k) w) ∧
+    (if s.rdh.stopBit != 0 then [mkErr s "E12" w] else []) =
+      (SrcState.ItsRdhValidator.check_at_initial_ihw (SrcState.ItsRdhValidator.new c)).errStr.codes.map (fun k => mkErr s (SrcTie.codeStr k) w) :=
+  ⟨SrcTie.no_continuation_eq s w c hc, SrcTie.continuation_eq s w, SrcTie.ddw0_rdh_eq s w c hc, SrcTie.ihw_rdh_eq s w c hc⟩
+
+theorem bc_order_src (cur prev prevInt : Option Bytes) (w : Bytes) (hcur : cur = some w) (c : SrcState.StatusWordContainer)
+    (hc : c.f_tdhs = SrcTie.bufOf cur prev prevInt) :
+    (SrcState.TdhValidator.check_after_tdt_packet_done_true c).isErr =
+      (match prev with | some p => decide (tdhBc p > tdhBc w) | none => false) :=
+  SrcTie.after_packet_done_eq cur prev prevInt w hcur c hc
 
 end C02
 end FastPasta
